@@ -198,10 +198,23 @@ Proof.
   induction items as [|x r IH]; intro H; [reflexivity|]. cbn [forallb] in H. apply andb_prop in H as [Hx Hr].
   cbn [existsb]. rewrite (IH Hr). destruct x; try reflexivity. discriminate Hx.
 Qed.
-Lemma sub_cok v s : core (Subscript v s) = true -> ecb v = true /\ cok s = true.
+Definition icok (x : expr) : bool := match x with Slice a b c => ocb a && ocb b && ocb c | _ => ecb x end.
+Lemma icok_cok x : icok x = true -> cok x = true.
+Proof. destruct x; intro H; try (apply ecb_cok; exact H). exact H. Qed.
+
+(* the index of a subscript: a tuple with a slice among its items (printed bare), or one expression / slice *)
+Lemma sub_cok v s : core (Subscript v s) = true ->
+  ecb v = true /\
+  ((exists items, s = ETuple items /\ existsb is_slice items = true /\ forallb icok items = true) \/
+   (index_toks s = pp slot_Subscript_slice s /\ cok s = true /\
+    match s with ETuple items => existsb is_slice items = false | _ => True end)).
 Proof.
   cbn [core]. intro H. apply andb_prop in H as [Hv Hs]. split; [exact Hv|].
-  destruct s; try (apply ecb_cok; exact Hs). exact Hs.
+  destruct s; try (right; split; [reflexivity|split; [apply ecb_cok; exact Hs|exact I]]).
+  - (* tuple *) destruct (existsb is_slice elts) eqn:E.
+    + left. exists elts. split; [reflexivity|]. split; [exact E|exact Hs].
+    + right. unfold index_toks. rewrite E. split; [reflexivity|]. split; [apply ecb_cok; exact Hs|reflexivity].
+  - (* slice *) right. split; [reflexivity|]. split; [exact Hs|exact I].
 Qed.
 
 Lemma tie_kws : forall kws : list (option ident * expr), Forall (fun kw => T (snd kw)) kws ->
@@ -224,9 +237,33 @@ Proof.
   destruct d as [x|]; [|reflexivity]. cbn [option_map]. rewrite (Hx _ (ecb_cok _ Hcx)). reflexivity.
 Qed.
 
-Theorem tie_all : forall e, T e.
+(* for a tuple also the statements of its items (an index tuple with slices is not itself in the core) *)
+Definition T2 (e : expr) : Prop := T e /\ match e with ETuple items => Forall T items | _ => True end.
+Lemma T2_T l : Forall T2 l -> Forall T l.
+Proof. intros H. eapply Forall_impl; [|exact H]. intros x [Hx _]. exact Hx. Qed.
+Lemma T2_kws (kws : list (option ident * expr)) : Forall (fun kw => T2 (snd kw)) kws -> Forall (fun kw => T (snd kw)) kws.
+Proof. intros H. eapply Forall_impl; [|exact H]. intros x [Hx _]. exact Hx. Qed.
+Lemma T2_opts (l : list (option expr)) : Forall (fun o => match o with Some x => T2 x | None => True end) l ->
+  Forall (fun o => match o with Some x => T x | None => True end) l.
+Proof. intros H. eapply Forall_impl; [|exact H]. intros [x|] Hx; [exact (proj1 Hx)|exact I]. Qed.
+Lemma T2_gens (gs : list comprehension) :
+  Forall (fun g => match g with (t, i, ifs, _) => T2 t /\ T2 i /\ Forall T2 ifs end) gs ->
+  Forall (fun g => match g with (t, i, ifs, _) => T t /\ T i /\ Forall T ifs end) gs.
+Proof. intros H. eapply Forall_impl; [|exact H]. intros [[[t i] ifs] a] [[Ht _] [[Hi _] Hifs]]. split; [exact Ht|]. split; [exact Hi|apply T2_T; exact Hifs]. Qed.
+
+Theorem tie_all2 : forall e, T2 e.
 Proof.
-  induction e using expr_ind'; intros slot Hc; try discriminate Hc;
+  induction e using expr_ind';
+    (split; [|first [exact I|apply T2_T; assumption]]);
+    repeat match goal with
+           | H : Pl _ _ |- _ => unfold Pl in H; apply T2_T in H
+           | H : Forall (fun kw => T2 (snd kw)) _ |- _ => apply T2_kws in H
+           | H : Forall (Po _) _ |- _ => unfold Po in H; apply T2_opts in H
+           | H : Pg _ _ |- _ => unfold Pg, Pl in H; apply T2_gens in H
+           | H : Po _ _ |- _ => unfold Po in H
+           end;
+    repeat match goal with IH : T2 _ |- _ => destruct IH as [IH ?] end;
+    intros slot Hc; try discriminate Hc;
     rewrite pp_unfold; cbn [utoks]; rewrite norm_paren; f_equal; cbn [pbody].
   - (* Starred *) cbn [cok core] in Hc. nrm. rewrite (IHe _ (ecb_cok _ Hc)). reflexivity.
   - (* BinOp *) cbn [cok core] in Hc. apply andb_prop in Hc as [H1 H2]. nrm.
@@ -248,15 +285,25 @@ Proof.
   - (* Compare *) cbn [cok core] in Hc. apply andb_prop in Hc as [Hc Hcs]. apply andb_prop in Hc as [Hc _]. apply andb_prop in Hc as [Hl _].
     nrm. rewrite (IHe _ (ecb_cok _ Hl)), (tie_cmp cs ops H Hcs). reflexivity.
   - (* Attribute *) cbn [cok core] in Hc. nrm. rewrite norm_paren, (IHe _ (ecb_cok _ Hc)). reflexivity.
-  - (* Subscript *) apply sub_cok in Hc as [Hv Hs].
-    assert (G : norm (utoks slot_Subscript_value DQ e1 ++ TP "[" :: utoks slot_Subscript_slice DQ e2 ++ [TP "]"]) =
-                pp slot_Subscript_value e1 ++ PK "[" :: pp slot_Subscript_slice e2 ++ [PK "]"]).
-    { nrm. rewrite (IHe1 _ (ecb_cok _ Hv)), (IHe2 _ Hs). reflexivity. }
-    destruct e2; try exact G. cbn [cok core] in Hs. rewrite (no_slice _ Hs). exact G.
+  - (* Subscript *) assert (Hc' : core (Subscript e1 e2) = true) by exact Hc. clear Hc.
+    apply sub_cok in Hc' as [Hv [[items [-> [Es Hi]]]|[Eidx [Hs Hns]]]].
+    + (* an index tuple with a slice: printed bare *)
+      unfold index_toks. rewrite Es.
+      change (existsb (fun x : expr => match x with Slice _ _ _ => true | _ => false end) items) with (existsb is_slice items).
+      rewrite Es. nrm. rewrite (IHe1 _ (ecb_cok _ Hv)). f_equal. f_equal. rewrite norm_join.
+      match goal with HT : Forall T items |- _ => rewrite (T_map icok icok_cok _ items HT Hi) end.
+      f_equal. destruct items as [|x [|y t]]; reflexivity.
+    + rewrite Eidx.
+      assert (G : norm (utoks slot_Subscript_value DQ e1 ++ TP "[" :: utoks slot_Subscript_slice DQ e2 ++ [TP "]"]) =
+                  pp slot_Subscript_value e1 ++ PK "[" :: pp slot_Subscript_slice e2 ++ [PK "]"]).
+      { nrm. rewrite (IHe1 _ (ecb_cok _ Hv)), (IHe2 _ Hs). reflexivity. }
+      destruct e2; try exact G.
+      change (existsb (fun x : expr => match x with Slice _ _ _ => true | _ => false end) elts) with (existsb is_slice elts).
+      rewrite Hns. exact G.
   - (* Slice *) cbn [cok] in Hc. apply andb_prop in Hc as [Hc Hcc]. apply andb_prop in Hc as [Ha Hb].
-    nrm. f_equal; [destruct a as [x|]; [apply (H _ (ecb_cok _ Ha))|reflexivity]|]. f_equal.
-    f_equal; [destruct b as [x|]; [apply (H0 _ (ecb_cok _ Hb))|reflexivity]|]. f_equal.
-    destruct c as [x|]; [apply (H1 _ (ecb_cok _ Hcc))|reflexivity].
+    nrm. f_equal; [destruct a as [x|]; [apply (proj1 H _ (ecb_cok _ Ha))|reflexivity]|]. f_equal.
+    f_equal; [destruct b as [x|]; [apply (proj1 H0 _ (ecb_cok _ Hb))|reflexivity]|]. f_equal.
+    destruct c as [x|]; [apply (proj1 H1 _ (ecb_cok _ Hcc))|reflexivity].
   - (* Call *) assert (Hc' : core (Call e args kws) = true) by exact Hc. clear Hc.
     apply core_call in Hc' as [Hf [[x [gs [-> [-> Hg]]]]|[Ha Hk]]].
     + (* f(x for x in y): the generator expression stands bare *)
@@ -283,9 +330,12 @@ Proof.
     nrm. rewrite (IHe _ (ecb_cok _ Hx)), (tie_comps gs H Hgs). reflexivity.
   - (* DictComp *) cbn [cok core] in Hc. apply andb_prop in Hc as [Hc Hgs]. apply andb_prop in Hc as [Hc _]. apply andb_prop in Hc as [Hk Hv].
     nrm. rewrite (IHe1 _ (ecb_cok _ Hk)), (IHe2 _ (ecb_cok _ Hv)), (tie_comps gs H Hgs). reflexivity.
-  - (* IfExp *) cbn [cok core] in Hc. apply andb_prop in Hc as [Hc H3]. apply andb_prop in Hc as [H1 H2].
-    nrm. rewrite (IHe1 _ (ecb_cok _ H1)), (IHe2 _ (ecb_cok _ H2)), (IHe3 _ (ecb_cok _ H3)). reflexivity.
+  - (* IfExp *) cbn [cok core] in Hc. apply andb_prop in Hc as [Hc Hc3]. apply andb_prop in Hc as [Hc1 Hc2].
+    nrm. rewrite (IHe1 _ (ecb_cok _ Hc1)), (IHe2 _ (ecb_cok _ Hc2)), (IHe3 _ (ecb_cok _ Hc3)). reflexivity.
 Qed.
+
+Theorem tie_all : forall e, T e.
+Proof. intros e. exact (proj1 (tie_all2 e)). Qed.
 
 (* the unparser model's tokens, split into words, are the printer's tokens on every tree of the core *)
 Theorem norm_unparse_core : forall e, core e = true -> norm (unparse_toks e) = pp slot_top e.
